@@ -74,6 +74,16 @@ def parseLevels : Nat → List Str → List (List Binding)
   | k + 1, n :: rest => let (l, r) := parseLevel (natOf n) rest; l :: parseLevels k r
   | _ + 1, [] => []
 
+/-- pairs `ident label` -/
+def parseNodes : List Str → List Node
+  | i :: l :: rest => ⟨i, l⟩ :: parseNodes rest
+  | _ => []
+
+def takeN : Nat → List Str → List Str × List Str
+  | 0, rest => ([], rest)
+  | n + 1, x :: rest => let (a, r) := takeN n rest; (x :: a, r)
+  | _ + 1, [] => ([], [])
+
 def variantOf (s : Str) : Variant :=
   if s == "repaired".toList then .repaired else if s == "asIs".toList then .asIs else variantOfTree
 
@@ -110,7 +120,10 @@ def dispatchC12 : List Str → Option (List Str)
             (if Gen.C12.usesIterSorted then "sorted".toList else "unsorted".toList),
             (if Gen.C12.countKeyLower then "lower".toList else "asWritten".toList),
             (if Gen.C12.incDirsOrdered then "ordered".toList else "hash".toList),
-            (if Gen.C12.inheritedIterOrdered then "ordered".toList else "hash".toList)]
+            (if Gen.C12.inheritedIterOrdered then "ordered".toList else "hash".toList),
+            (if Gen.C12.nodeLtByIdent then "ident".toList else "other".toList),
+            (if Gen.C12.entityLtByIdent then "ident".toList else "other".toList),
+            (if Gen.C12.pageListNatural then "natural".toList else "keyed".toList)]
     else if cmd == "c12.include".toList then
       -- c12.include <own dir> <own has 0|1> <n> {dir has}: the directory the include file is taken from
       -- (the configured order stands in for the unknown iteration order when the tree goes through a set)
@@ -131,6 +144,21 @@ def dispatchC12 : List Str → Option (List Str)
                  else chainComps Gen.C12.inheritedIterOrdered id levels
         some ("ok".toList :: r.map (·.name))
       | _ => some ["bad-request".toList]
+    else if cmd == "c12.nodes".toList then
+      -- c12.nodes <node|entity> {ident label}: `sorted()` of the objects, given in the iteration order of the set
+      match args with
+      | kind :: rest =>
+        let ns := parseNodes rest
+        let r := if kind == "entity".toList then sortEntitiesTree ns else emitNodesTree ns
+        some ("ok".toList :: r.map (·.ident))
+      | [] => some ["bad-request".toList]
+    else if cmd == "c12.pages".toList then
+      -- c12.pages <n> {ordered_subpage} {listdir result}: the names get_page_tree walks, in order
+      match args with
+      | n :: rest =>
+        let (ordered, enum) := takeN (natOf n) rest
+        some ("ok".toList :: pageFileListTree ordered enum)
+      | [] => some ["bad-request".toList]
     else if cmd == "c12.writeout".toList then
       -- c12.writeout <out> <nInit> init... then groups of writes separated by a field "|" : path content ...
       match args with
